@@ -41,6 +41,8 @@ def run_p(seed, tier, replay=None):
 
 
 def run(seed, tier, replay=None):
-    return mix.merge(run_p(seed, tier, replay), mix.check([mix.mon_retries], seed, tier))
+    from props import tim
+    r = mix.merge(run_p(seed, tier, replay), mix.check([mix.mon_retries], seed, tier))
+    return mix.merge(r, tim.run_family("cancel", seed, tier, 5, 20))
 
 KNOWN_MATCHERS = {}
